@@ -35,6 +35,11 @@ func modelParams(prop, tier string) work.GenParams {
 
 func (m modelsim) Gen(prop, tier string, ts *sim.Tapes) *Case {
 	cfg := work.GenConfig(ts.Get("cfg"))
+	if prop != "C09" {
+		k := ts.Get("knobs")
+		cfg.NoSync = k.Chance(1, 8)
+		cfg.NoStatistics = k.Chance(1, 12)
+	}
 	p := modelParams(prop, tier)
 	p.Guards = ActiveGuards()
 	// swarm: some runs concentrate on one aspect
